@@ -130,6 +130,9 @@ def mutate(fn, op, idx):
     return fn2
 
 
+BASEV: set = set()
+
+
 def evaluate(args):
     prop, short, qual, op, idx = args
     from sa.main import evaluate as ev
@@ -155,7 +158,7 @@ def evaluate(args):
     except SyntaxError:
         return None
     ctx, _, _ = ev(prop, "quick", ss.overlay({ss.rel(short): src}), selftest=False)
-    v = [r for r in ctx.results if r.verdict == report.VIOLATION and not any(k for k in ())]
+    v = [r for r in ctx.results if r.verdict == report.VIOLATION and r.key() not in BASEV]
     u = [r for r in ctx.results if r.verdict == report.UNDECIDED]
     # diff line
     import difflib
@@ -179,7 +182,7 @@ def main():
     # known-finding baseline: ignore base violations by comparing to a clean run
     from sa.main import evaluate as ev
     base, _, _ = ev(prop, "quick", ss, selftest=False)
-    basev = {r.key() for r in base.results if r.verdict == report.VIOLATION}
+    BASEV.update(r.key() for r in base.results if r.verdict == report.VIOLATION)   # inherited by the forked workers
     with mp.Pool(14) as pool:
         res = [r for r in pool.map(evaluate, jobs, chunksize=4) if r]
     det = [r for r in res if r[3] == "V"]
